@@ -102,7 +102,7 @@ theorem runBody_frame (env : Env) (f : Node → St → Res × St) (hf : CalleeFr
   | read a x k ih =>
     intro s hr
     simp only [runBody]
-    have h1 := bodyRel_noteRead s a x
+    have h1 := bodyRel_noteRead s (a && (env.refs x).isSome) x
     exact h1.trans (ih _ _ (h1.refsBelow hr))
   | call n k ih =>
     intro s hr
